@@ -1,0 +1,137 @@
+// SPDX-FileCopyrightText: 2026 The Pion community <https://pion.ly>
+// SPDX-License-Identifier: MIT
+
+//go:build verif && verif_c26 && !js
+
+package webrtc
+
+import (
+	"errors"
+	"io"
+	"time"
+
+	"github.com/pion/interceptor"
+)
+
+// VerifRTXRead is one result of TrackRemote.Read in VerifRTXUnwrap.
+type VerifRTXRead struct {
+	Packet  []byte
+	HasAttr bool
+	RtxPT   uint8
+	RtxSeq  uint16
+	RtxSSRC uint32
+}
+
+// VerifRTXUnwrap drives the repair-stream reader of a real RTPReceiver
+// (maybeStartRepairStreamReader) with a scripted repair interceptor and
+// returns what TrackRemote.Read delivers (property C26).
+//
+// Each script entry k is a whole receive buffer bufs[k] (every byte of the
+// pooled buffer is overwritten, so "stale" bytes past the packet are chosen by
+// the caller) together with the byte count ns[k] the interceptor reports.
+// All buffers must have length mtu. No network, no SRTP: the primary stream's
+// interceptor returns io.EOF.
+func VerifRTXUnwrap(
+	mtu uint, primaryPT uint8, primarySSRC, rtxSSRC uint32, bufs [][]byte, ns []int,
+) ([]VerifRTXRead, error) {
+	if len(bufs) != len(ns) || len(bufs) > 40 {
+		return nil, errors.New("verif: bad script") //nolint:err113
+	}
+	se := SettingEngine{}
+	se.SetReceiveMTU(mtu)
+	api := NewAPI(WithSettingEngine(se))
+	receiver, err := api.NewRTPReceiver(RTPCodecTypeVideo, &DTLSTransport{api: api})
+	if err != nil {
+		return nil, err
+	}
+	receiver.configureReceive(RTPReceiveParameters{Encodings: []RTPDecodingParameters{{
+		RTPCodingParameters: RTPCodingParameters{
+			SSRC: SSRC(primarySSRC),
+			RTX:  RTPRtxParameters{SSRC: SSRC(rtxSSRC)},
+		},
+	}}})
+	track := receiver.tracks[0].track
+	params := RTPParameters{Codecs: []RTPCodecParameters{{
+		RTPCodecCapability: RTPCodecCapability{MimeType: MimeTypeVP8, ClockRate: 90000},
+		PayloadType:        PayloadType(primaryPT),
+	}}}
+	track.mu.Lock()
+	track.payloadType = PayloadType(primaryPT)
+	track.codec = params.Codecs[0]
+	track.params = params
+	track.mu.Unlock()
+
+	primary := interceptor.RTPReaderFunc(
+		func(_ []byte, a interceptor.Attributes) (int, interceptor.Attributes, error) {
+			return 0, a, io.EOF
+		},
+	)
+	receiver.mu.Lock()
+	receiver.tracks[0].streamInfo = &interceptor.StreamInfo{SSRC: primarySSRC}
+	receiver.tracks[0].rtpInterceptor = primary
+	receiver.mu.Unlock()
+
+	done := make(chan struct{})
+	next := 0
+	repair := interceptor.RTPReaderFunc(
+		func(b []byte, _ interceptor.Attributes) (int, interceptor.Attributes, error) {
+			if next >= len(bufs) {
+				if next == len(bufs) {
+					close(done)
+				}
+				next++
+
+				return 0, nil, io.EOF
+			}
+			if len(b) != len(bufs[next]) {
+				panic("verif: buffer length differs from the receive MTU") //nolint:forbidigo
+			}
+			copy(b, bufs[next])
+			n := ns[next]
+			next++
+
+			return n, nil, nil
+		},
+	)
+	if err = receiver.receiveForRtx(
+		SSRC(rtxSSRC), "", &interceptor.StreamInfo{SSRC: rtxSSRC}, nil, repair, false, nil, nil,
+	); err != nil {
+		return nil, err
+	}
+	close(receiver.received)
+
+	// the first Read requests the repair reader (real path: repairReadRequested
+	// -> requestRepairStreamReader); nothing is queued yet so it falls through
+	// to the primary stream, which is at EOF.
+	buf := make([]byte, mtu)
+	var out []VerifRTXRead
+	first := true
+	for {
+		n, attr, rerr := track.Read(buf)
+		if rerr != nil {
+			if first {
+				first = false
+				select {
+				case <-done:
+				case <-time.After(10 * time.Second):
+					return nil, errors.New("verif: repair reader did not finish") //nolint:err113
+				}
+
+				continue
+			}
+
+			break
+		}
+		res := VerifRTXRead{Packet: append([]byte(nil), buf[:n]...)}
+		if attr != nil {
+			pt, ok1 := attr.Get(AttributeRtxPayloadType).(uint8)
+			seq, ok2 := attr.Get(AttributeRtxSequenceNumber).(uint16)
+			ssrc, ok3 := attr.Get(AttributeRtxSsrc).(uint32)
+			res.HasAttr = ok1 && ok2 && ok3
+			res.RtxPT, res.RtxSeq, res.RtxSSRC = pt, seq, ssrc
+		}
+		out = append(out, res)
+	}
+
+	return out, receiver.Stop()
+}
